@@ -160,6 +160,12 @@ theorem removeItem_elems (c : Go.CacheS) (k : Go.Str) : ∀ p ∈ (Code.Cache_re
   · simp only [Go.emapDel, List.mem_filter] at hp; exact hp.1
   · exact hp
 
+theorem removeItem_items (c : Go.CacheS) (k : Go.Str) : ∀ p ∈ (Code.Cache_removeItem c k).items, p ∈ c.items := by
+  intro p hp
+  unfold Code.Cache_removeItem at hp
+  simp only [] at hp
+  split at hp <;> (simp only [Go.cmapDel, List.mem_filter] at hp; exact hp.1)
+
 theorem removeItem_maxSize (c : Go.CacheS) (k : Go.Str) : (Code.Cache_removeItem c k).maxSize = c.maxSize := by
   unfold Code.Cache_removeItem
   simp only []
@@ -254,6 +260,29 @@ theorem Get_inv (enc : Go.Any → Nat) (now : Int) (c : Go.CacheS) (k : Go.Str) 
       · rw [removeItem_maxSize]; exact h.cap
       · split <;> exact h.cap
 
+theorem Get_items (now : Int) (c : Go.CacheS) (k : Go.Str) :
+    (∀ p ∈ (Code.Cache_Get now c k).2.items, p ∈ c.items) ∧
+    ((Code.Cache_Get now c k).1.2 = true → ∃ p ∈ c.items, p.2.Value = (Code.Cache_Get now c k).1.1) := by
+  unfold Code.Cache_Get
+  simp only []
+  have hfind : (Go.cmapGet c.items k).2 = true → ∃ p ∈ c.items, p.2 = (Go.cmapGet c.items k).1 := by
+    unfold Go.cmapGet
+    cases hf : c.items.find? (fun p => p.1 == k) with
+    | none => simp
+    | some p => intro _; exact ⟨p, List.mem_of_find?_eq_some hf, rfl⟩
+  rcases hg : Go.cmapGet c.items k with ⟨item, ex⟩
+  rw [hg] at hfind
+  simp only at hfind
+  cases ex
+  · simp
+  · obtain ⟨p, hp, hpe⟩ := hfind rfl
+    simp only [Bool.not_true, Bool.false_eq_true, if_false]
+    split
+    · exact ⟨removeItem_items c k, by simp⟩
+    · split
+      · exact ⟨fun p hp => hp, fun _ => ⟨p, hp, by rw [hpe]⟩⟩
+      · exact ⟨fun p hp => hp, fun _ => ⟨p, hp, by rw [hpe]⟩⟩
+
 /-! ### `evictOldest`: walking the list from the front to the first expired entry -/
 theorem listNext_suffix (pre : List Go.Str) (x : Go.Str) (s' : List Go.Str) (hnd : (pre ++ x :: s').Nodup) :
     Go.listNext (pre ++ x :: s') (some x) = s'.head? := by
@@ -336,7 +365,7 @@ theorem nodup_of_map_ofList (l : List Go.Str) (h : (l.map String.ofList).Nodup) 
 
 theorem evictOldest_refines (enc : Go.Any → Nat) (now : Int) (c : Go.CacheS) (h : CInv enc c) (fuel : Nat) (hf : c.order.length < fuel) :
     ∃ c', Code.Cache_evictOldest fuel now c = some c' ∧ absC enc c' = evictOldest false now (absC enc c) ∧ CInv enc c' ∧
-      (∀ p ∈ c'.elems, p ∈ c.elems) ∧ c'.maxSize = c.maxSize := by
+      (∀ p ∈ c'.elems, p ∈ c.elems) ∧ c'.maxSize = c.maxSize ∧ (∀ p ∈ c'.items, p ∈ c.items) := by
   obtain ⟨a, hR⟩ := h.rep
   have hnd : c.order.Nodup := by
     have := hR.ordNodup
@@ -381,7 +410,7 @@ theorem evictOldest_refines (enc : Go.Any → Nat) (now : Int) (c : Go.CacheS) (
       cases c.order with
       | nil => rfl
       | cons x t => simp [Go.elemValue, Go.lruKey]
-  refine ⟨_, hres, ?_, ?_, ?_, ?_⟩
+  refine ⟨_, hres, ?_, ?_, ?_, ?_, ?_⟩
   · rw [hmodel]
     cases c.order.find? (expiredAt now c) with
     | some k => exact removeItem_refines enc c k h
@@ -407,6 +436,12 @@ theorem evictOldest_refines (enc : Go.Any → Nat) (now : Int) (c : Go.CacheS) (
       cases c.order.head? with
       | some k => exact removeItem_maxSize c k
       | none => rfl
+  · cases c.order.find? (expiredAt now c) with
+    | some k => exact removeItem_items c k
+    | none =>
+      cases c.order.head? with
+      | some k => exact removeItem_items c k
+      | none => exact fun p hp => hp
 
 /-! ### `Set` -/
 theorem emapSet_new (m : List (Go.Str × Go.Elem)) (k : Go.Str) (hn : (Go.emapGet m k).2 = false) :
@@ -459,7 +494,14 @@ theorem setNew_abs (enc : Go.Any → Nat) (c c1 : Go.CacheS) (k : Go.Str) (v : G
 theorem Set_refines (enc : Go.Any → Nat) (now : Int) (c : Go.CacheS) (k : Go.Str) (v : Go.Any) (d : Int) (h : CInv enc c)
     (fuel : Nat) (hf : c.order.length < fuel) :
     ∃ c', Code.Cache_Set fuel now c k v d = some c' ∧
-      absC enc c' = CacheImpl.set false (absC enc c) now (String.ofList k) (enc v) d ∧ CInv enc c' := by
+      absC enc c' = CacheImpl.set false (absC enc c) now (String.ofList k) (enc v) d ∧ CInv enc c' ∧
+      (∀ p ∈ c'.items, p ∈ c.items ∨ p = (k, ⟨v, now + d⟩)) := by
+  have cmapSet_items : ∀ (m : List (Go.Str × Go.CacheItem)) (x : Go.CacheItem), ∀ p ∈ Go.cmapSet m k x, p ∈ m ∨ p = (k, x) := by
+    intro m x p hp
+    simp only [Go.cmapSet, List.mem_append, List.mem_filter, List.mem_cons, List.not_mem_nil, or_false] at hp
+    rcases hp with hp | hp
+    · exact Or.inl hp.1
+    · exact Or.inr hp
   obtain ⟨a, hR⟩ := h.rep
   have hmodelR := R_set false now (String.ofList k) (enc v) d hR
   have hg : mget (absC enc c).items (String.ofList k) =
@@ -487,20 +529,24 @@ theorem Set_refines (enc : Go.Any → Nat) (now : Int) (c : Go.CacheS) (k : Go.S
       omega
     by_cases hfull : (c.items.length : Int) ≥ c.maxSize
     · have hfull' : (absC enc c).items.length ≥ (absC enc c).cap := hlen.mp hfull
-      obtain ⟨c1, hev, habs1, hinv1, hsub1, hmax1⟩ := evictOldest_refines enc now c h fuel hf
+      obtain ⟨c1, hev, habs1, hinv1, hsub1, hmax1, hitems1⟩ := evictOldest_refines enc now c h fuel hf
       obtain ⟨f1, f2⟩ := setNew_abs enc c c1 k v (now + d) hnotel hinv1 hsub1
       have habs : absC enc (setNew c1 k v (now + d)) = CacheImpl.set false (absC enc c) now (String.ofList k) (enc v) d := by
         rw [f1, habs1]; unfold CacheImpl.set; simp only [hg, hfull', if_true]
       simp only [hfull, decide_true, if_true, hev]
-      refine ⟨setNew c1 k v (now + d), rfl, habs, CInv_of enc _ _ (habs ▸ hmodelR) f2 ?_⟩
-      show 0 ≤ c1.maxSize
-      rw [hmax1]; exact h.cap
+      refine ⟨setNew c1 k v (now + d), rfl, habs, CInv_of enc _ _ (habs ▸ hmodelR) f2 ?_, ?_⟩
+      · show 0 ≤ c1.maxSize
+        rw [hmax1]; exact h.cap
+      · intro p hp
+        rcases cmapSet_items c1.items ⟨v, now + d⟩ p hp with h1 | h1
+        · exact Or.inl (hitems1 p h1)
+        · exact Or.inr h1
     · have hfull' : ¬ (absC enc c).items.length ≥ (absC enc c).cap := fun hx => hfull (hlen.mpr hx)
       obtain ⟨f1, f2⟩ := setNew_abs enc c c k v (now + d) hnotel h (fun p hp => hp)
       have habs : absC enc (setNew c k v (now + d)) = CacheImpl.set false (absC enc c) now (String.ofList k) (enc v) d := by
         rw [f1]; unfold CacheImpl.set; simp only [hg, hfull', if_false]
       simp only [hfull, decide_false, Bool.false_eq_true, if_false]
-      exact ⟨setNew c k v (now + d), rfl, habs, CInv_of enc _ _ (habs ▸ hmodelR) f2 h.cap⟩
+      exact ⟨setNew c k v (now + d), rfl, habs, CInv_of enc _ _ (habs ▸ hmodelR) f2 h.cap, cmapSet_items c.items ⟨v, now + d⟩⟩
   · -- an existing key: new value and expiry, moved to the back
     simp only [if_true] at hg ⊢
     have hm := moveToBack_refines enc { c with items := Go.cmapSet c.items k ⟨v, Go.timeAdd now d⟩ } k h.handles hR.el
@@ -521,9 +567,9 @@ theorem Set_refines (enc : Go.Any → Nat) (now : Int) (c : Go.CacheS) (k : Go.S
     dsimp only at habs ⊢
     cases ok
     · simp only [Bool.false_eq_true, if_false] at habs ⊢
-      exact ⟨_, rfl, habs, CInv_of enc _ _ (habs ▸ hmodelR) h.handles h.cap⟩
+      exact ⟨_, rfl, habs, CInv_of enc _ _ (habs ▸ hmodelR) h.handles h.cap, cmapSet_items c.items ⟨v, Go.timeAdd now d⟩⟩
     · simp only [if_true] at habs ⊢
-      exact ⟨_, rfl, habs, CInv_of enc _ _ (habs ▸ hmodelR) h.handles h.cap⟩
+      exact ⟨_, rfl, habs, CInv_of enc _ _ (habs ▸ hmodelR) h.handles h.cap, cmapSet_items c.items ⟨v, Go.timeAdd now d⟩⟩
 
 /-! ### `Cleanup`: one pass over the map, dropping what has expired -/
 /-- the condition of `Cleanup` is the non-strict expiry test: its second disjunct ("within 10 % of expiry") never holds for a live entry -/
@@ -593,6 +639,37 @@ theorem Cleanup_refines (enc : Go.Any → Nat) (now : Int) (c : Go.CacheS) (h : 
   rw [hres]
   exact cleanupFold enc now c.items c h
 
+theorem Cleanup_items (now : Int) (c : Go.CacheS) : ∀ p ∈ (Code.Cache_Cleanup now c).items, p ∈ c.items := by
+  have key : ∀ (f : Go.Str × Go.CacheItem → Go.CacheS → Go.Ctl Go.CacheS Go.CacheS),
+      (∀ p c, f p c = .next (if !(Go.timeBefore now p.2.ExpiresAt) then Code.Cache_removeItem c p.1 else c)) →
+      (match Go.forRange c.items c f with | .ret r => r | .next c => c | .brk c => c) =
+        c.items.foldl (fun c p => if !(Go.timeBefore now p.2.ExpiresAt) then Code.Cache_removeItem c p.1 else c) c := by
+    intro f hf
+    rw [forRange_fold c.items c f _ hf]
+  have hres : Code.Cache_Cleanup now c =
+      c.items.foldl (fun c p => if !(Go.timeBefore now p.2.ExpiresAt) then Code.Cache_removeItem c p.1 else c) c := by
+    unfold Code.Cache_Cleanup
+    simp only []
+    exact key _ (by
+      intro p c
+      rcases p with ⟨k, item⟩
+      simp only [cleanupCond]
+      cases !(Go.timeBefore now item.ExpiresAt) <;> rfl)
+  rw [hres]
+  have : ∀ (xs : List (Go.Str × Go.CacheItem)) (c0 : Go.CacheS),
+      ∀ p ∈ (xs.foldl (fun c p => if !(Go.timeBefore now p.2.ExpiresAt) then Code.Cache_removeItem c p.1 else c) c0).items, p ∈ c0.items := by
+    intro xs
+    induction xs with
+    | nil => intro c0 p hp; exact hp
+    | cons x t ih =>
+      intro c0 p hp
+      simp only [List.foldl_cons] at hp
+      have := ih _ p hp
+      split at this
+      · exact removeItem_items c0 x.1 p this
+      · exact this
+  exact this c.items c
+
 /-! ### from `NewCache()`: the empty cache satisfies the invariant -/
 theorem CInv_empty (enc : Go.Any → Nat) (n : Int) (hn : 0 ≤ n) : CInv enc ⟨[], [], [], n⟩ :=
   ⟨(by intro p hp; cases hp), hn, ⟨Cache.init n.toNat, R_init n.toNat⟩⟩
@@ -621,7 +698,7 @@ theorem codeStep_refines (enc : Go.Any → Nat) (c : Go.CacheS) (op : COp) (h : 
     absC enc (codeStep c op) = CacheImpl.step false (absC enc c) (op.abs enc) ∧ CInv enc (codeStep c op) := by
   cases op with
   | set now k v ttl =>
-    obtain ⟨c', hs, ha, hi⟩ := Set_refines enc now c k v ttl h (c.order.length + 1) (Nat.lt_succ_self _)
+    obtain ⟨c', hs, ha, hi, _⟩ := Set_refines enc now c k v ttl h (c.order.length + 1) (Nat.lt_succ_self _)
     simp only [codeStep, hs, Option.getD_some, COp.abs, CacheImpl.step]
     exact ⟨ha, hi⟩
   | get now k => exact ⟨(Get_refines enc now c k h).1, Get_inv enc now c k h⟩
